@@ -246,6 +246,21 @@ func run(repo string) (string, error) {
 		drain = wd.lines
 	}
 
+	// the hook copy of queryLoop with an injected tick channel (dosnode/zz_verif_c13.go, build tag verif)
+	var tickLines, tickParams []string
+	if fsetT, hk, err := ex.Parse(filepath.Join(repo, "dosnode", "zz_verif_c13.go")); err == nil {
+		if tk := ex.FuncDecl(hk, "DosNode", "VerifQueryLoopTick"); tk != nil {
+			wt := &walker{fset: fsetT}
+			wt.stmts(tk.Body.List, 0)
+			tickLines = wt.lines
+			for _, p := range tk.Type.Params.List {
+				for _, nm := range p.Names {
+					tickParams = append(tickParams, nm.Name+" "+src(fsetT, p.Type))
+				}
+			}
+		}
+	}
+
 	s := ex.Header("QueryLoopFacts", "dosnode/dos_query_handler.go (queryLoop, handleQuery), dosnode/dos_stages.go (dispatchSign, recoverSign, drainSigns)")
 	s += "namespace Dos.Gen.QueryLoopFacts\n"
 	s += "/-- control skeleton of queryLoop (logging and defers left out), indentation = nesting -/\n"
@@ -266,6 +281,9 @@ func run(repo string) (string, error) {
 	s += "/-- drainSigns (absent = empty lists): parameter names and control skeleton -/\n"
 	s += leanList("drainSignsParams", drainParams)
 	s += leanList("drainSigns", drain)
+	s += "/-- hook VerifQueryLoopTick (dosnode/zz_verif_c13.go): parameters and control skeleton, same walker as queryLoop -/\n"
+	s += leanList("queryLoopTickParams", tickParams)
+	s += leanList("queryLoopTick", tickLines)
 	s += "end Dos.Gen.QueryLoopFacts\n"
 	return s, nil
 }
